@@ -118,13 +118,14 @@ pub fn c19_case(text: &str) -> CaseOut {
             out.tag = format!("err/cyclic={cyc}");
             let mut with_ingress = false;
             if !cyc {
-                if deps.cyclic_with_ingress() {
+                if deps.cyclic_with_ingress() && deps.reenters_own_loop(flat) {
                     with_ingress = true;
                     out.viols.push((
                         "C19/rejected-acyclic/loop-ingress-order".into(),
                         format!("partition_graph rejects a graph whose non-delayed + reference + access-order dependencies are acyclic; the cycle exists only after adding the partitioner's loop-ingress ordering constraints (flow leaves a loop and re-enters the same loop).\ndiagnostic: {message}\n{}", flat_dump()),
                     ));
                 } else {
+                    with_ingress = deps.cyclic_with_ingress();
                     out.viols.push((
                         "C19/rejected-acyclic/other".into(),
                         format!("partition_graph rejects a graph whose dependency graph is acyclic.\ndiagnostic: {message}\n{}", flat_dump()),
@@ -144,11 +145,27 @@ pub fn c19_case(text: &str) -> CaseOut {
                     if (cyc || with_ingress) && !oracle::named_cycle_is_real(flat, &names, &e) {
                         let mut e2 = deps.deps.clone();
                         e2.extend(deps.ingress.iter().copied());
-                        let via_ingress = oracle::named_cycle_is_real(flat, &names, &e2);
+                        // known pattern: the graph really is cyclic, the named nodes form a cycle once the
+                        // loop-ingress ordering constraints are added, and every named node that is on no
+                        // real dependency cycle is a batch()/batch_lazy() ingress node of a loop that
+                        // another named node belongs to.
+                        let mut pattern = false;
+                        if cyc && let Some(assign) = oracle::named_cycle(flat, &names, &e2) {
+                            let real = oracle::nodes_on_cycles(&deps, false);
+                            let extra: Vec<u64> = assign.iter().copied().filter(|n| !real.contains(n)).collect();
+                            pattern = !extra.is_empty()
+                                && extra.iter().all(|x| {
+                                    let n = &flat.nodes[x];
+                                    (n.name == "batch" || n.name == "batch_lazy")
+                                        && n.loop_.is_some_and(|l| {
+                                            assign.iter().any(|y| y != x && flat.loop_within(flat.nodes[y].loop_, l))
+                                        })
+                                });
+                        }
                         out.viols.push((
-                            if via_ingress { "C19/diagnostic-cycle-not-real/uses-loop-ingress-order".into() } else { "C19/diagnostic-cycle-not-real".into() },
-                            format!("the graph has a dependency cycle, but the nodes named in the diagnostic {names:?} do not form a cycle of the dependency graph{}\n{}",
-                                if via_ingress { " (they do once the partitioner's loop-ingress ordering constraints are added)" } else { "" }, flat_dump()),
+                            if pattern { "C19/diagnostic-cycle-not-real/uses-loop-ingress-order".into() } else { "C19/diagnostic-cycle-not-real/other".into() },
+                            format!("the nodes named in the diagnostic {names:?} do not form a cycle of the dependency graph{}\n{}",
+                                if pattern { " (the graph is cyclic, but the named cycle only closes through the partitioner's loop-ingress ordering constraints: it names a batch()/batch_lazy() node that is on no dependency cycle)" } else { "" }, flat_dump()),
                         ));
                     }
                     out.tag.push_str(&format!("/len{}", names.len()));
@@ -159,10 +176,9 @@ pub fn c19_case(text: &str) -> CaseOut {
             out.tag = format!("panic/cyclic={cyc}");
             let cls = panic_class(message);
             if cyc {
-                out.viols.push((
-                    format!("C19/panic-instead-of-err/{cls}"),
-                    format!("partition_graph panics instead of returning the cycle diagnostic on a graph with a dependency cycle.\npanic: {message}\n{}", flat_dump()),
-                ));
+                // The statement says partitioning *fails* on cyclic graphs; a panic is a failure (it
+                // surfaces as a proc-macro compile error). Recorded as an observation only.
+                out.notes.push(format!("partition_graph panics (instead of returning a cycle diagnostic) on a cyclic graph: {cls}"));
             } else {
                 out.viols.push((
                     format!("C19/panic-on-acyclic/{cls}"),
@@ -198,8 +214,11 @@ pub fn c19_case(text: &str) -> CaseOut {
 /// Expected result of removing 1-in-1-out unions/tees from `s`: same nodes minus the removed ones,
 /// wiring contracted through them (source port of the incoming edge, destination port of the
 /// outgoing edge).
-fn contract_unary_union_tee(s: &Snap) -> (BTreeSet<u64>, Vec<(u64, String, u64, String)>) {
-    let removed: BTreeSet<u64> = s
+/// `gone` = the nodes that actually disappeared. The statement demands preservation of the
+/// dataflow, not that every removable node is removed: any subset of the 1-in-1-out unions/tees may
+/// go. Returns (the removable candidates, the wiring expected after contracting `gone`).
+fn contract_unary_union_tee(s: &Snap, gone: &BTreeSet<u64>) -> (BTreeSet<u64>, Vec<(u64, String, u64, String)>) {
+    let removable: BTreeSet<u64> = s
         .nodes
         .iter()
         .filter(|(id, n)| {
@@ -207,6 +226,7 @@ fn contract_unary_union_tee(s: &Snap) -> (BTreeSet<u64>, Vec<(u64, String, u64, 
         })
         .map(|(&id, _)| id)
         .collect();
+    let removed: BTreeSet<u64> = gone.intersection(&removable).copied().collect();
     let mut wiring = vec![];
     for e in &s.edges {
         if removed.contains(&e.src) {
@@ -232,7 +252,7 @@ fn contract_unary_union_tee(s: &Snap) -> (BTreeSet<u64>, Vec<(u64, String, u64, 
         }
     }
     wiring.sort();
-    (removed, wiring)
+    (removable, wiring)
 }
 
 fn cmp_snaps(a: &Snap, b: &Snap, with_partition: bool) -> Vec<String> {
@@ -397,14 +417,15 @@ pub fn c20_case(text: &str, do_modules: bool, thorough: bool) -> CaseOut {
     let flat = run.flat.as_ref().unwrap();
 
     // (a) eliminate_extra_unions_tees
-    let (removed, wiring) = contract_unary_union_tee(flat0);
+    let removed: BTreeSet<u64> = flat0.nodes.keys().filter(|k| !flat.nodes.contains_key(k)).copied().collect();
+    let (removable, wiring) = contract_unary_union_tee(flat0, &removed);
     {
         let exp_ids: Vec<u64> = flat0.nodes.keys().filter(|k| !removed.contains(k)).copied().collect();
         let got_ids: Vec<u64> = flat.nodes.keys().copied().collect();
         let s = |v: &Vec<u64>| v.iter().map(|k| k & 0xffff_ffff).collect::<Vec<_>>();
         let dump = || format!("program:\n{}before:\n{}after:\n{}", text, flat0.dump(), flat.dump());
-        if exp_ids != got_ids {
-            out.viols.push(("C20/eliminate/nodes".into(), format!("remaining nodes {:?}, expected {:?} (all nodes except 1-in-1-out unions/tees)\n{}", s(&got_ids), s(&exp_ids), dump())));
+        if exp_ids != got_ids || !removed.is_subset(&removable) {
+            out.viols.push(("C20/eliminate/nodes".into(), format!("remaining nodes {:?}; only 1-in-1-out unions/tees {:?} may disappear and nothing may appear\n{}", s(&got_ids), s(&removable.iter().copied().collect()), dump())));
         } else {
             for id in &exp_ids {
                 if flat0.nodes[id] != flat.nodes[id] {
